@@ -56,6 +56,9 @@ def compare(ctx, job, m, o, tag, failed):
     return False
 
 
+_KIND = [0]
+
+
 def failing_variants(prog, rng, both_pairs=True):
     """Every node as the failing one (first invocation; second for nodes of cyclic programs)."""
     paths = [p for p, n in IR.all_nodes(prog) if n["kind"] in ("func", "route", "ifelse")]
@@ -64,7 +67,11 @@ def failing_variants(prog, rng, both_pairs=True):
             p2 = copy.deepcopy(prog)
             nd = dict(IR.all_nodes(p2))[path]
             nd["fail_at"] = [idx]
-            yield p2, f"fail:{path}#{idx}"
+            # what the node raises: no message / falsy / plain / refusing attributes / TypeError about arguments / one of
+            # the library's own exception types -- in turn
+            _KIND[0] += 1
+            nd["exc_kind"] = _KIND[0] % 6
+            yield p2, f"fail:{path}#{idx}/exc{nd['exc_kind']}"
     if both_pairs and len(paths) >= 2:
         for _ in range(2):
             a, b = rng.sample(paths, 2)
